@@ -166,7 +166,7 @@ func runC19(c *Ctx) {
 			c.undecided("C19-R7: no test of the fsnotify event's Op found in watchForChanges")
 		}
 	}
-	c.rule("C19-R6", "PAIR: every Lock/RLock in cmd/glyph and pkg/hotreload is released on every path to a return: a failed reload cannot leave the manager's mutex held and block all later reloads")
+	c.rule("C19-R6", "PAIR: every Lock/RLock in cmd/glyph and pkg/hotreload is released on every path to a return: a failed reload cannot leave the manager's mutex held and block all later reloads; REACQ: no method calls, while it holds its receiver's mutex, a method of the same receiver that acquires that mutex again (sync mutexes are not re-entrant; a second RLock blocks once a writer waits)")
 	c.Sites["C19-R6#acquire-sites"] = lockReleaseAudit(c, "C19-R6", []string{glyphCmd, "pkg/hotreload"})
 	c.floor("C19-R6", 6)
 	c.rule("C19-R5", "STALE: nothing the dev server builds once per process (a sync.Once body in cmd/glyph, pkg/hotreload, pkg/server) is computed from a package variable that a reload assigns again (type definitions, route tables): a later valid edit would otherwise not take effect for that part")
